@@ -2,6 +2,7 @@ package symgo
 
 import (
 	"fmt"
+	"strings"
 	"go/token"
 	"go/types"
 	"slices"
@@ -457,7 +458,13 @@ func (in *Exec) callSSAOpts(caller *frame, fn *ssa.Function, args []value, env [
 		if ov, ok := x.overrides[name]; ok && !in.inOverride(caller, ov) {
 			return in.callSSA(caller, ov, args, nil)
 		}
-		if intr, ok := intrinsics[name]; ok {
+		intr, ok := intrinsics[name]
+		if !ok {
+			if i := strings.IndexByte(name, '['); i > 0 && len(fn.TypeArgs()) > 0 {
+				intr, ok = intrinsics[name[:i]+"[...]"]
+			}
+		}
+		if ok {
 			if r := intr(in, caller, args); r != (notHandled{}) {
 				in.W.noteIntrinsic(name)
 				return r
@@ -481,7 +488,8 @@ func (in *Exec) callSSAOpts(caller *frame, fn *ssa.Function, args []value, env [
 	if in.callDepth > 400 {
 		in.inconclusive("call depth exceeded")
 	}
-	defer func() { in.callDepth-- }()
+	in.stack = append(in.stack, fn)
+	defer func() { in.callDepth--; in.stack = in.stack[:len(in.stack)-1] }()
 	in.W.noteFunc(fn)
 
 	fr := &frame{in: in, caller: caller, fn: fn, tolerantRoot: tolerantRoot}
